@@ -74,6 +74,7 @@ def unit():
     STRUCT_RULES = [Rule('R5:struct-generics', r'pub struct MaxChannelsPerKey<S, u64, F>\nwhere\n\s*u64: Eq \+ Hash,\n\{', 'pub struct MaxChannelsPerKey {', 1, flags=re.M, why='type parameters instantiated by prelude models'),
                     Rule('R5:keymaker', r'keymaker: F,', 'keymaker: Keymaker,', 1, why='key function model')]
     return Unit('channels', prelude=['base.rs', 'arc_world.rs'], rules=RULES, fx_type='World', header='use std::collections::hash_map::Entry;\n',
+                accessor_guards=[(SRC, IMPL, 'listener_pin_mut', r'\{\s*self\.as_mut\(\)\.project\(\)\.listener\s*\}')],
                 fx_fns=[r'\.increment_channels_for_key\(', r'\.handle_new_channel\(', r'\.poll_listener\(', r'\.poll_closed_channels\('],
                 fx_prims=[r'TrackerArc::new\(', r'\.strong_count\(', r'\.upgrade\('],
                 parts=[
